@@ -327,6 +327,43 @@ static void wl_fd(struct ctx *c)
 		json_object_put(o); free(doc.b);
 	}
 }
+static void wl_big_inputs(struct ctx *c)
+{
+	/* param 0: long member name + long string (scratch buffer grows several times, long strdup); 1: from_fd_ex of ~70 KiB;
+	 * 2: json_patch_apply in copy_from mode on a document with 60 members (deep copy with table resizes) */
+	if (c->param == 0) {
+		struct obuf d = {0}; struct json_object *o; int i; struct json_tokener *tok = json_tokener_new(); enum json_tokener_error e;
+		ob_puts(&d, "{\"");
+		for (i = 0; i < 300; i++) ob_putc(&d, (char)('a' + i % 26));
+		ob_puts(&d, "\":\"");
+		for (i = 0; i < 2500; i++) ob_putc(&d, (char)('A' + i % 26));
+		ob_puts(&d, "\",\"n\":[1,2,3]}");
+		ARM(c); o = json_tokener_parse_ex(tok, d.b, (int)d.n + 1); DISARM(c);
+		e = json_tokener_get_error(tok);
+		if (!o && e == json_tokener_error_memory) c->failed = 1; else { ob_printf(&c->res, "err=%d ", (int)e); res_obj(c, o); }
+		json_object_put(o); json_tokener_free(tok); free(d.b);
+	} else if (c->param == 1) {
+		int fd = mem_fd(); struct json_object *o; struct obuf doc = {0}; int i;
+		ob_puts(&doc, "[");
+		for (i = 0; i < 5500; i++) ob_printf(&doc, "%s\"item %d\"", i ? "," : "", i);
+		ob_puts(&doc, "]");
+		if (write(fd, doc.b, doc.n) != (ssize_t)doc.n) bad(c, "harness-write");
+		lseek(fd, 0, SEEK_SET);
+		_json_c_set_last_err("%s", "");
+		ARM(c); o = json_object_from_fd_ex(fd, 4); DISARM(c);
+		close(fd);
+		if (!o) { c->failed = 1; if (!json_util_get_last_err()) bad(c, "no-error-message"); }
+		else ob_printf(&c->res, "len=%zu", json_object_array_length(o));
+		json_object_put(o); free(doc.b);
+	} else {
+		struct json_object *doc = P(DOCS[NDOCS - 2]), *patch = P("[{\"op\":\"add\",\"path\":\"/zz\",\"value\":[1]},{\"op\":\"copy\",\"from\":\"/member_number_5\",\"path\":\"/copy\"},{\"op\":\"remove\",\"path\":\"/member_number_7\"}]"), *base = NULL; struct json_patch_error pe; int rc;
+		keep(c, patch); keep(c, doc);
+		ARM(c); rc = json_patch_apply(doc, patch, &base, &pe); DISARM(c);
+		if (rc < 0) c->failed = 1; else res_obj(c, base);
+		if (base && !json_object_to_json_string_ext(base, 0)) bad(c, "patched-document-unusable");
+		check_keeps(c); json_object_put(base); put_keeps(c, 1);
+	}
+}
 static void wl_double_format(struct ctx *c)
 {
 	struct json_object *d = json_object_new_double(0.5); int rc; const char *s;
@@ -401,6 +438,7 @@ static void build_table(void)
 	for (i = 0; i < NPATCHES * 2; i++) addw("patch", wl_patch, i, "patch");
 	for (i = 0; i < 3; i++) addw("fd", wl_fd, i, i == 1 ? "serialize-fd" : "fd");
 	for (i = 0; i < 8; i++) addw("double_format", wl_double_format, i, "config");
+	for (i = 0; i < 3; i++) addw("big", wl_big_inputs, i, i == 2 ? "patch" : i == 1 ? "fd" : "parse");
 	addw("lh_table", wl_lh_table, 0, "table"); addw("lh_table", wl_lh_table, 16, "table");
 }
 
